@@ -16,8 +16,14 @@
    The two premises are [shared_readonly] and [none_stateless]; they are what the regenerated lock table
    establishes for the real code (proofs/LinTable.v).
 
+   Condition variables.  [waits o l = true] says that the body, at locals l inside its critical section,
+   calls sync.Cond.Wait: the mutex is released (action [Wait t]), the thread has to acquire it again and
+   continues with locals [wstep o l].  Wake-ups are not modelled (a waiter may re-acquire at any time:
+   spurious wake-ups are allowed, which is sound for safety properties).  In the SEQUENTIAL specification a
+   wait is a step that only changes the locals (the body retries).
+
    The concurrent machine.  Threads (goroutines) are natural numbers.  A trace is a list of actions
-     Inv t o | Acq t | Body t | Rel t | Ret t r.
+     Inv t o | Acq t | Body t | Wait t | Rel t | Ret t r.
    Mutual exclusion is NOT proved, it is the semantics of the mutex and therefore a well-formedness
    condition of traces ([step], cases [Acq]): an exclusive acquisition needs no holder at all, a shared
    acquisition needs no exclusive holder — readers may overlap each other.  Every interleaving of
@@ -34,13 +40,25 @@ Section Object.
   Variable linit : op -> local.
   Variable mstep : op -> local -> state -> local * state.
   Variable fin : op -> local -> option ret.
+  Variable waits : op -> local -> bool.     (* the body calls Cond.Wait here *)
+  Variable wstep : op -> local -> local.    (* locals after the wait *)
   Variable kind : op -> lkind.
 
-  (* ---------- sequential specification: the bodies run alone *)
+  (* steps of a body inside ONE critical section (no wait) *)
+  Inductive sect_run (o : op) : local -> state -> local -> state -> Prop :=
+  | sr_refl : forall l s, sect_run o l s l s
+  | sr_step : forall l s l1 s1 l2 s2,
+      fin o l = None -> waits o l = false -> mstep o l s = (l1, s1) -> sect_run o l1 s1 l2 s2 ->
+      sect_run o l s l2 s2.
+
+  (* ---------- sequential specification: the bodies run alone (a wait = retry) *)
   Inductive body_run (o : op) : local -> state -> local -> state -> Prop :=
   | br_refl : forall l s, body_run o l s l s
   | br_step : forall l s l1 s1 l2 s2,
-      fin o l = None -> mstep o l s = (l1, s1) -> body_run o l1 s1 l2 s2 -> body_run o l s l2 s2.
+      fin o l = None -> waits o l = false -> mstep o l s = (l1, s1) -> body_run o l1 s1 l2 s2 ->
+      body_run o l s l2 s2
+  | br_wait : forall l s l2 s2,
+      fin o l = None -> waits o l = true -> body_run o (wstep o l) s l2 s2 -> body_run o l s l2 s2.
 
   Definition seq_exec (o : op) (s s' : state) (r : ret) : Prop :=
     exists l', body_run o (linit o) s l' s' /\ fin o l' = Some r.
@@ -56,12 +74,28 @@ Section Object.
     forall o, kind o = KShared -> forall l s, snd (mstep o l s) = s.
   Definition none_stateless : Prop :=
     forall o, kind o = KNone -> forall l s s', mstep o l s = (fst (mstep o l s'), s).
+  (* Cond.Wait only under the exclusive mutex, never in a lock-free body *)
+  Definition wait_excl : Prop := forall o l, waits o l = true -> kind o = KExcl.
+
+  (* Operations that wait: the premise is an invariant [resumable o l] of the locals with which a thread
+     (re-)enters its critical section.  A section that ends in a wait must leave the guarded state unchanged
+     (a failed attempt), and a section that finishes from a resumable point must have the effect and result of
+     a COMPLETE sequential run on the state it found.  For bodies that never wait, [fun o l => l = linit o]
+     is such an invariant (proofs/LinSim.v: nowait_resumable). *)
+  Record resumable_inv (resumable : op -> local -> Prop) : Prop := {
+    res_init : forall o, resumable o (linit o);
+    res_wait : forall o l0 s l s', resumable o l0 -> sect_run o l0 s l s' -> fin o l = None ->
+                 waits o l = true -> s' = s /\ resumable o (wstep o l);
+    res_fin : forall o l0 s l s' r, resumable o l0 -> sect_run o l0 s l s' -> fin o l = Some r ->
+                 seq_exec o s s' r
+  }.
 
   (* ---------- the fine-grained concurrent machine *)
   Inductive action :=
   | Inv (t : tid) (o : op)
   | Acq (t : tid)
   | Body (t : tid)
+  | Wait (t : tid)     (* sync.Cond.Wait: releases the mutex; the thread must acquire it again *)
   | Rel (t : tid)      (* Unlock / RUnlock; for a KNone operation: the end of the body *)
   | Ret (t : tid) (r : ret).
 
@@ -89,10 +123,13 @@ Section Object.
   | s_acq_shared : forall c t o l, th c t = Invoked o l -> kind o = KShared ->
       (forall t', ~ holds_excl c t') ->                              (* RWMutex.RLock *)
       step c (Acq t) (mkc (sh c) (upd (th c) t (InCS o l)))
-  | s_body : forall c t o l l' s', th c t = InCS o l -> fin o l = None -> mstep o l (sh c) = (l', s') ->
-      step c (Body t) (mkc s' (upd (th c) t (InCS o l')))
-  | s_body_none : forall c t o l l' s', th c t = Invoked o l -> kind o = KNone -> fin o l = None ->
+  | s_body : forall c t o l l' s', th c t = InCS o l -> fin o l = None -> waits o l = false ->
       mstep o l (sh c) = (l', s') ->
+      step c (Body t) (mkc s' (upd (th c) t (InCS o l')))
+  | s_wait : forall c t o l, th c t = InCS o l -> fin o l = None -> waits o l = true ->
+      step c (Wait t) (mkc (sh c) (upd (th c) t (Invoked o (wstep o l))))
+  | s_body_none : forall c t o l l' s', th c t = Invoked o l -> kind o = KNone -> fin o l = None ->
+      waits o l = false -> mstep o l (sh c) = (l', s') ->
       step c (Body t) (mkc s' (upd (th c) t (Invoked o l')))
   | s_rel : forall c t o l r, th c t = InCS o l -> fin o l = Some r ->
       step c (Rel t) (mkc (sh c) (upd (th c) t (Released o r)))
@@ -146,7 +183,7 @@ Section Object.
   (* abstraction of a fine-grained trace: the unlock is the linearization point *)
   Definition abs_action (a : action) : list aaction :=
     match a with
-    | Inv t o => [AInv t o] | Rel t => [ALin t] | Ret t r => [ARet t r] | Acq _ | Body _ => []
+    | Inv t o => [AInv t o] | Rel t => [ALin t] | Ret t r => [ARet t r] | Acq _ | Body _ | Wait _ => []
     end.
   Definition abs (tr : list action) : list aaction := flat_map abs_action tr.
 
@@ -192,7 +229,7 @@ Section Object.
      (KNone bodies do not touch the state: premise [none_stateless].)  A data race is a reachable
      configuration in which two threads have an access enabled and at least one may write. *)
   Definition access_enabled (c : config) (t : tid) (w : bool) : Prop :=
-    exists o l, th c t = InCS o l /\ fin o l = None /\
+    exists o l, th c t = InCS o l /\ fin o l = None /\ waits o l = false /\
                 w = match kind o with KExcl => true | _ => false end.
   Definition race (c : config) : Prop :=
     exists t t' w w', t <> t' /\ access_enabled c t w /\ access_enabled c t' w' /\ (w = true \/ w' = true).
